@@ -1,11 +1,13 @@
 """C10 -- the v2 API is total.  G: every tokenizer vector replayed under recover.  T: structure-aware mutation x thresholds 0..1 x corpora (small, empty, with empty documents, full), per-call watchdog."""
 import time
 from lib import vlib
-from checks.v2common import Acc, trace_leg, tok_replay
+from checks.v2common import Acc, trace_leg, tok_replay, match_model, match_replay
 PID = "C10"
 def run():
     t0 = time.time(); v = vlib.Verdict(PID); acc = Acc(); th = vlib.TIER == "thorough"
     tok_replay(v, acc, ["D", "E"], 4 if th else 3, sig="tokenizer-replay")
+    match_model(acc, ["T100"])
+    match_replay(v, acc, ["T100", "T80"], 3, 5, sig="stage-replay")            # every index the stage functions compute, under recover
     recs, lines = trace_leg(v, acc, "c10", [PID], env={"VERIF_CALL_TIMEOUT": "120"})
     calls = [r for r in recs if r.get("ev") in ("match", "panic", "timeout")]
     acc.nontrivial += len({r.get("hash") for r in calls}); acc.extra["api_calls"] = len(calls) * 2
